@@ -42,12 +42,38 @@ def extract(ctx):
     else:
         facts["go"] = (m.group(1), expr.strip(), GO)
     sol = vlib.read_contract(SOL)
-    m = re.search(r"function\s+quorum\s*\(\s*uint(\d*)\s+(\w+)\s*\)[^{]*\{\s*return\s+([^;]+);\s*\}", sol)
-    if not m:
-        ctx.gen_fail("C07", "quorum() is no longer a single return expression in " + SOL)
+    # straight-line body: typed local declarations `uintN x = [uintN(]expr[)];` are inlined into the return expression, and the
+    # narrowest width any operand is declared with / cast to is recorded (^0.8 checked arithmetic happens at that width)
+    m = re.search(r"function\s+quorum\s*\(\s*uint(\d*)\s+(\w+)\s*\)[^{]*\{(.*?)\n    \}", sol, re.S)
+    expr, width = None, None
+    if m:
+        width = int(m.group(1) or 256)
+        env, ok = {}, True
+        inl = lambda e: re.sub(r"\b[A-Za-z_]\w*\b", lambda t: "(" + env[t.group(0)] + ")" if t.group(0) in env else t.group(0), e)
+        for st in [x.strip() for x in m.group(3).split(";") if x.strip()]:
+            d = re.match(r"^uint(\d*)\s+(\w+)\s*=\s*(.+)$", st, re.S)
+            r_ = re.match(r"^return\s+(.+)$", st, re.S)
+            if expr is not None:
+                ok = False
+            elif d:
+                width = min(width, int(d.group(1) or 256))
+                rhs = d.group(3).strip()
+                c = re.match(r"^uint(\d*)\((.+)\)$", rhs, re.S)
+                if c:
+                    width = min(width, int(c.group(1) or 256))
+                    rhs = c.group(2)
+                env[d.group(2)] = inl(rhs)
+            elif r_:
+                expr = inl(r_.group(1).strip())
+            else:
+                ok = False
+        if not ok:
+            expr = None
+    if not m or expr is None:
+        ctx.gen_fail("C07", "quorum() is no longer straight-line code ending in one return expression in " + SOL)
     else:
-        facts["sol"] = (m.group(2), m.group(3).strip(), SOL)
-        facts["_solWidth"] = int(m.group(1) or 256)
+        facts["sol"] = (m.group(2), expr, SOL)
+        facts["_solWidth"] = width
     ral = vlib.read_contract(RAL)
     m = re.search(r"let\s+quorumSize\s*=\s*([^\n]+)\n\s*assert!\(\s*quorumSize\s*<=\s*signatureSize\s*,", ral)
     if not m:
@@ -116,9 +142,9 @@ def run(ctx):
     facts, ok = gen(ctx)
     sol_width = facts.pop("_solWidthKept", 256)
     if ok:
-        ctx.prove(families=("processor",))
+        ctx.prove(families=("processor", "evm"))
     else:
-        ctx.lake_build(["drv_processor"])
+        ctx.lake_build(["drv_processor", "drv_evm"])
 
     # --- validate the translation against the compiled Go function, and search for a failing n
     ov = ctx.overlay({"node/pkg/processor/zz_verif_c07_test.go": "processor/c07_test.go"})
@@ -183,4 +209,13 @@ def run(ctx):
     from checks import proccommon
     proccommon.run_processor(ctx, "C07", "C07 judges every VAA the node publishes from its own observation, and every inbound VAA naming the "
                              "current set that it stores, with the contract-side model (threshold, ascending indices, positional ecrecover).")
+    # --- the n the node's threshold is computed from is the n of the set on chain: the guardian-set fetch path (the real
+    # fetchAndUpdateGuardianSet against a fake node holding sets of 1..255 keys) must hand the processor exactly the chain's set
+    from checks import c10
+    rule = ctx.cov["rule"]
+    dist = ctx.cov.get("generator_distribution")
+    c10.run_gsfetch_for(ctx, c10.GSFETCH_CLAUSES)
+    ctx.cov["rule"] = rule + " | guardian-set fetch: sets of 1..255 keys on a fake EVM node, what arrives on the processor's set channel is compared key by key"
+    if dist is not None:
+        ctx.cov["generator_distribution"] = dist
     ctx.assumptions += ["the contracts are never executed here (no solc / no Alephium VM): their formulas are tied by source translation only"]
